@@ -128,7 +128,7 @@ func cmdVerify(args []string) {
 			}
 			fmt.Printf("%s %-70s %-8s %-7s %.2fs  %s  [%s]\n", status, o.Name, o.Result, o.Solver, o.TimeS, o.Pos, o.Text)
 		}
-		if !ok && *dump != "" {
+		if (!ok || strings.HasPrefix(o.Result, "error") || os.Getenv("GOVC_DUMP_ALL") == o.Name) && *dump != "" {
 			os.MkdirAll(*dump, 0o755)
 			os.WriteFile(filepath.Join(*dump, sanitize(o.Name)+".smt2"), []byte(o.Script("z3", *timeout, true)), 0o644)
 			if o.Model != "" {
